@@ -352,6 +352,189 @@ def ob_assign_ops(run, mir, rp):
         ob.inconclusive(str(e))
 
 
+PARSER_RS = "src/parse/operation.rs"
+# documented precedence (doc comment of parse_expression): level -> (parser of the first operand, {token: (node kind, parser of the right operand)})
+PRECEDENCE = {
+    7: ("parse_level_6", {"And": ("And", "parse_level_7"), "Or": ("Or", "parse_level_7"), "Question": ("Question", "parse_level_7")}),
+    6: ("parse_level_5", {t: (t, "parse_level_6") for t in ("Ge", "Geq", "Le", "Leq", "Eq", "Neq", "Is", "IsA", "In")}),
+    5: ("parse_level_4", {t: (t, "parse_level_5") for t in ("BLShift", "BRShift", "BAnd", "BOr", "BXOr")}),
+    4: ("parse_level_3", {t: (t, "parse_level_4") for t in ("Add", "Sub")}),
+    3: ("parse_level_2", {t: (t, "parse_level_3") for t in ("Mul", "Div", "FDiv", "Mod")}),
+    1: ("parse_inner_expression", {"Pow": ("Pow", "parse_level_1"), "Question": ("Question", "parse_expression")}),
+}
+UNARY_PARSE = {"Add": ("AddU", "parse_level_2"), "Sub": ("SubU", "parse_level_2"), "Sqrt": ("Sqrt", "parse_expression"),
+               "Not": ("Not", "parse_expression"), "BOneCmpl": ("BOneCmpl", "parse_expression")}
+PRECEDENCE_PROGRAMS = [
+    ("mul-before-add", "print(2 + 3 * 4)", "14"), ("mul-before-add-left", "print(2 * 3 + 4)", "10"), ("pow-right-assoc", "print(2 ^ 3 ^ 2)", "512"),
+    ("sub-mul", "print(7 - 2 * 3)", "1"), ("unary-minus-tight", "def a := 3\ndef b := 4\nprint(b * -a + 1)", "-11"),
+    ("unary-minus-floor-div", "def a := 3\nprint(10 // -a + 1)", "-3"), ("unary-minus-pow", "def r: Int := -2 ^ 2\nprint(r)", "-4"),
+    ("compare-after-add", "print(1 + 2 > 2)", "True"), ("and-after-compare", "print(1 + 2 > 2 and 1 > 2)", "False"),
+    ("shift-after-add", "def r: Int := 1 << 2 + 1\nprint(r)", "8"), ("bitand-after-add", "def r: Int := 6 _and_ 3 + 1\nprint(r)", "4"), ("unary-plus", "def a := 3\nprint(2 * +a + 1)", "7"),
+    ("mod-before-add", "print(7 mod 4 + 1)", "4"), ("floor-div-before-sub", "print(9 // 2 - 1)", "3"),
+]
+
+
+def precedence_family(rp, only=None):
+    bad, n = [], 0
+    for role, src, want in PRECEDENCE_PROGRAMS:
+        n += 1
+        st, out = rp.transpile(src)
+        if st != "OK":
+            bad.append({"role": role, "src": src, "why": f"{st}: {out[:120]}"})
+            continue
+        rc, so, se = py_run(out)
+        if rc != 0 or so.strip() != want:
+            bad.append({"role": role, "src": src, "why": f"emitted {out.strip()!r} prints {so.strip()!r} (rc={rc}), the documented precedence gives {want}"})
+    return n, bad
+
+
+def ob_parser_table(run, mir, rp):
+    ob = run.ob("parser-precedence-table", "E2+z3", "the operator-precedence parser: each level parses its first operand with the next tighter "
+                "level, builds for every operator token the node of that operator with the first operand on the left, and parses the right "
+                "operand with the documented level (same level: right-nested chains; unary + and - bind tighter than every binary operator "
+                "but **)", ["parse_level_1..7 and their closures"])
+    try:
+        ex = Exec(mir, max_paths=20000)
+        tokens = ex.enum_variants("Token")
+        got_first, got = {}, {}
+
+        def fn_name(v, st):
+            v = ex.read_ref(st, v) if isinstance(v, Ref) else v
+            from mirsym import FnItem
+            if isinstance(v, FnItem):
+                return v.text.split("::")[-1]
+            if isinstance(v, Agg) and not v.fields:
+                return str(v.ty or v.variant).split("::")[-1]
+            return str(v)[:60]
+        for lvl, (first, table) in PRECEDENCE.items():
+            fn = mir.fns.get(f"parse_level_{lvl}")
+            cl = mir.fns.get(f"parse_level_{lvl}::{{closure#0}}")
+            if fn is None or cl is None:
+                raise Unsupported(f"parse_level_{lvl} not found")
+            st = State()
+            it = Ref(ex.new_cell(st, Opq(z3.Const("it", Val), "LexIterator")))
+            ends = e2.run_kernel(run, ex, fn, [it], st)
+            firsts = set()
+            for p in ends:
+                pe = [e_ for e_ in p.events if e_["name"].endswith("LexIterator::parse")]
+                if pe:
+                    firsts.add(fn_name(pe[0]["args"][1], p.state))
+            got_first[lvl] = firsts
+            # the closure: one path per operator token
+            st = State()
+            arith = Opq(z3.Const("arithmetic", Val), "Box<AST>")
+            start = Opq(z3.Const("start", Val), "Position")
+            ncap = 2
+            env = Agg("closure", cl.args[0][1].lstrip("&"), [Ref(ex.new_cell(st, start)), Ref(ex.new_cell(st, arith))])
+            it = Ref(ex.new_cell(st, Opq(z3.Const("it", Val), "LexIterator")))
+            lex = Ref(ex.new_cell(st, Opq(z3.Const("lex", Val), "Lex")))
+            ends = e2.run_kernel(run, ex, cl, [Ref(ex.new_cell(st, env)), it, lex], st)
+            tab = {}
+            for p in ends:
+                if not (p.kind == "return" and isinstance(p.ret, Agg) and p.ret.variant == "Ok"):
+                    continue
+                eats = [e_ for e_ in p.events if e_["name"].endswith("LexIterator::eat")]
+                pes = [e_ for e_ in p.events if e_["name"].endswith("LexIterator::parse")]
+                if not eats:
+                    continue            # no operator: the first operand is the result
+                tokv = ex.read_ref(p.state, eats[0]["args"][1]) if isinstance(eats[0]["args"][1], Ref) else eats[0]["args"][1]
+                tok = tokv.variant if isinstance(tokv, Agg) else "?"
+                if tok in ("Range", "RangeIncl", "Slice", "SliceIncl"):
+                    continue            # range / slice construction: checked by range-desugaring
+                news = [e_ for e_ in p.events if e_["name"].endswith("AST::new")]
+                node = None
+                for nw in news:
+                    nv = nw["args"][1]
+                    nv = ex.read_ref(p.state, nv) if isinstance(nv, Ref) else nv
+                    if isinstance(nv, Agg) and nv.ty == "Node":
+                        node = nv
+                left_ok = right_ok = False
+                kind = "?"
+                if node is not None and pes:
+                    kind = node.variant
+                    okp = ex.project(p.state, ex.project(p.state, pes[0]["ret"], ("v", "Ok")), ("f", 0), "Box<AST>")
+                    names_ = list(node.names or [])
+                    if "left" in names_ and "right" in names_:
+                        left_ok = z3.eq(z3.simplify(ex.to_val(p.state, node.fields[names_.index("left")])), z3.simplify(ex.to_val(p.state, arith)))
+                        right_ok = z3.eq(z3.simplify(ex.to_val(p.state, node.fields[names_.index("right")])), z3.simplify(ex.to_val(p.state, okp)))
+                tab.setdefault(tok, set()).add((kind, fn_name(pes[0]["args"][1], p.state) if pes else "?", bool(left_ok and right_ok)))
+            got[lvl] = tab
+        # unary level
+        fn2 = mir.fns.get("parse_level_2")
+        st = State()
+        it = Ref(ex.new_cell(st, Opq(z3.Const("it", Val), "LexIterator")))
+        ends = e2.run_kernel(run, ex, fn2, [it], st)
+        un = {}
+        fallthrough = set()
+        for p in ends:
+            if not (p.kind == "return"):
+                continue
+            eatifs = [e_ for e_ in p.events if e_["name"].endswith("LexIterator::eat_if")]
+            taken = None
+            for e_ in eatifs:
+                d = ex.discr(p.state, e_["ret"], "Option")
+                r_, _m, _dt, _s = e2.solve(ex, list(p.cond) + [d != 1])
+                if r_ == z3.unsat:      # this eat_if returned Some on this path
+                    tv = ex.read_ref(p.state, e_["args"][1]) if isinstance(e_["args"][1], Ref) else e_["args"][1]
+                    taken = tv.variant if isinstance(tv, Agg) else "?"
+            pes = [e_ for e_ in p.events if e_["name"].endswith("LexIterator::parse")]
+            if taken is None:
+                calls_ = [e_["name"] for e_ in p.events if e_["name"].startswith("parse_level_")]
+                fallthrough.update(calls_)
+                continue
+            if not (isinstance(p.ret, Agg) and p.ret.variant == "Ok"):
+                continue
+            news = [e_ for e_ in p.events if e_["name"].endswith("AST::new")]
+            kind = "?"
+            for nw in news:
+                nv = nw["args"][1]
+                nv = ex.read_ref(p.state, nv) if isinstance(nv, Ref) else nv
+                if isinstance(nv, Agg) and nv.ty == "Node":
+                    kind = nv.variant
+            un.setdefault(taken, set()).add((kind, fn_name(pes[0]["args"][1], p.state) if pes else "?"))
+        # decide with z3 over (level, token)
+        lv, tk = z3.Int("level"), z3.Int("token")
+        okv = z3.BoolVal(True)
+        dom = []
+        for lvl, (first, table) in PRECEDENCE.items():
+            okv = z3.If(z3.And(lv == lvl, tk == -1), z3.BoolVal(got_first[lvl] == {first}), okv)
+            dom.append(z3.And(lv == lvl, tk == -1))
+            for tok, (kind, rfn) in table.items():
+                okv = z3.If(z3.And(lv == lvl, tk == tokens.index(tok)), z3.BoolVal(got[lvl].get(tok) == {(kind, rfn, True)}), okv)
+                dom.append(z3.And(lv == lvl, tk == tokens.index(tok)))
+            extra = set(got[lvl]) - set(table)
+            okv = z3.If(z3.And(lv == lvl, tk == -2), z3.BoolVal(not extra), okv)
+            dom.append(z3.And(lv == lvl, tk == -2))
+        for tok, (kind, rfn) in UNARY_PARSE.items():
+            okv = z3.If(z3.And(lv == 2, tk == tokens.index(tok)), z3.BoolVal(un.get(tok) == {(kind, rfn)}), okv)
+            dom.append(z3.And(lv == 2, tk == tokens.index(tok)))
+        okv = z3.If(z3.And(lv == 2, tk == -1), z3.BoolVal(fallthrough == {"parse_level_1"}), okv)
+        dom.append(z3.And(lv == 2, tk == -1))
+        found, block = [], []
+        for _ in range(80):
+            r_, m_, dt, _s = e2.solve(ex, [disj(dom), z3.Not(okv)] + block)
+            ob.solver_s += dt
+            ob.queries += 1
+            if r_ != z3.sat:
+                break
+            l_, t_ = m_.eval(lv).as_long(), m_.eval(tk).as_long()
+            found.append((l_, tokens[t_] if t_ >= 0 else {-1: "<first operand>", -2: "<unexpected operator>"}[t_]))
+            block.append(z3.Not(z3.And(lv == l_, tk == t_)))
+        ob.reach = "sat"
+        run.samples.append({"obligation": ob.id, "first_operand": {str(k): sorted(v) for k, v in got_first.items()},
+                            "unary": {k: sorted(map(str, v)) for k, v in un.items()}, "level4": {k: sorted(map(str, v)) for k, v in got[4].items()}})
+        if not found:
+            ob.discharged(f"unsat over {len(dom)} (level, token) entries")
+        else:
+            n, bad = precedence_family(rp)
+            if bad:
+                ob.violated(f"parser-precedence:{bad[0]['role']}", {"entries": found}, bad[0], f"{bad[0]['src']!r}: {bad[0]['why']}")
+            else:
+                ob.inconclusive(f"solver reports parser table entries {found} as different from the documented precedence but the {n} replay programs evaluate as documented")
+    except Unsupported as e:
+        ob.inconclusive(str(e))
+
+
 def ob_structure(run, mir, rp, only_fns=None):
     """Every arm of the typed-AST -> Core converters builds the documented Core shape from the conversions of its children."""
     groups = {}
@@ -685,6 +868,7 @@ def run(run):
 
     ob_structure(run, mir, rp)
     ob_assign_ops(run, mir, rp)
+    ob_parser_table(run, mir, rp)
     # grouping is meaning: the printer's parenthesisation decision (the C10 obligations) is part of this property too
     try:
         from props import C10
@@ -698,8 +882,9 @@ def run(run):
         n3, b3 = ret_family(rp)
         n4, b4 = structure_family(rp)
         n5, b5 = assign_family(rp)
-        b2 = b2 + b3 + b4 + b5
-        run.validated += n1 + n2 + n3 + n4 + n5
+        n6, b6 = precedence_family(rp)
+        b2 = b2 + b3 + b4 + b5 + b6
+        run.validated += n1 + n2 + n3 + n4 + n5 + n6
         if b1 or b2:
             run.ob("family-operators", "native", "replay programs behave as documented").inconclusive(str((b1 + b2)[:2])[:600])
     rp.close()
